@@ -2,6 +2,7 @@ import Gv.Proofs.FastaRT
 import Gv.Model.Fmt.Nexus
 import Gv.Proofs.StockholmRT
 import Gv.Model.Fmt.Auto
+import Gv.Proofs.NexusRT
 /-!
 C02 — every alignment format round-trips losslessly through writer and parser.
 
@@ -369,5 +370,278 @@ theorem autodetect_selects_written_format (rows : List XRow) (hne : rows ≠ [])
   · simp [Nexus.write, Auto.detect]
   · simp [Clustal.write, Auto.detect]
   · simp [Phylip.write, Auto.detect, SP]
+
+/-! ## Nexus -/
+
+section NexusRT
+open Gv.Proofs.NexusRT
+open Gv.Spec.Fmt (reprNexus nexusKeywords upperName)
+
+private theorem nx_name_byte : ∀ b : Byte, isPrintable b = true → b ≠ 91 → b ≠ 93 → b ≠ 59 → b ≠ 61 →
+    Nexus.identChar b = true := by decide
+
+private theorem nx_residue_byte : ∀ b : Byte, (isNt b || isSpecial b) = true ∨ (isAa b || isSpecial b) = true →
+    Nexus.identChar b = true ∧ b ≠ 46 ∧ b ≠ 43 ∧ Phylip.isDigit b = false := by decide
+
+private theorem nx_keys : Nexus.keywords.map (·.1) = nexusKeywords := by decide
+private theorem nx_upper : Nexus.upper = Spec.Fmt.upper := rfl
+private theorem nx_iskw : ∀ p ∈ Nexus.keywords, Nexus.isKeyword p.2 = true := by decide
+
+private theorem lookup_none_of_not_mem {β} (k : Seq) : ∀ (l : List (Seq × β)), ¬ k ∈ l.map (·.1) → lookup k l = none
+  | [], _ => rfl
+  | (k', v) :: t, h => by
+    simp only [List.map_cons, List.mem_cons, not_or] at h
+    simp only [lookup]
+    have : (k == k') = false := by simp [h.1]
+    rw [this]
+    exact lookup_none_of_not_mem k t h.2
+
+private theorem parseInt64_none (q : Seq) (hne : q ≠ []) (h : ∀ b ∈ q, Phylip.isDigit b = false ∧ b ≠ 43) :
+    Phylip.parseInt64 q = none := by
+  unfold Phylip.parseInt64
+  cases q with
+  | nil => exact absurd rfl hne
+  | cons c t =>
+    have hc := h c (by simp)
+    by_cases c45 : c = 45
+    · subst c45
+      cases t with
+      | nil => simp
+      | cons d u =>
+        have hd := (h d (by simp)).1
+        simp [hd]
+    · have c43 : c ≠ 43 := hc.2
+      split
+      rename_i neg ds hm
+      split at hm
+      · rename_i t' he; simp at he; exact absurd he.1 c45
+      · rename_i t' he; simp at he; exact absurd he.1 c43
+      · simp only [Prod.mk.injEq] at hm
+        obtain ⟨hn, hd⟩ := hm
+        subst hn; subst hd
+        simp [hc.1]
+
+/-- the detected alphabet of an alignment over the property's residue alphabet is never "unknown" -/
+private theorem nt_could : ∀ c : Byte, (isNt c || isSpecial c) = true →
+    (Gen.alpha_bag_both.contains (toUpper c) || Gen.alpha_bag_nt.contains (toUpper c)) = true := by decide
+private theorem aa_could : ∀ c : Byte, (isAa c || isSpecial c) = true →
+    (Gen.alpha_bag_both.contains (toUpper c) || Gen.alpha_bag_aa.contains (toUpper c)) = true := by decide
+
+private theorem fold_nt (q : Seq) (h : ∀ c ∈ q, (isNt c || isSpecial c) = true) : ∀ st : Bool × Bool, st.2 = true →
+    (q.foldl (alphaStep Gen.alpha_bag_both Gen.alpha_bag_nt Gen.alpha_bag_aa) st).2 = true := by
+  induction q with
+  | nil => intro st hs; exact hs
+  | cons c t ih =>
+    intro st hs
+    simp only [List.foldl_cons]
+    apply ih (fun x hx => h x (by simp [hx]))
+    simp only [alphaStep, hs, Bool.true_and]
+    exact nt_could c (h c (by simp))
+
+private theorem fold_aa (q : Seq) (h : ∀ c ∈ q, (isAa c || isSpecial c) = true) : ∀ st : Bool × Bool, st.1 = true →
+    (q.foldl (alphaStep Gen.alpha_bag_both Gen.alpha_bag_nt Gen.alpha_bag_aa) st).1 = true := by
+  induction q with
+  | nil => intro st hs; exact hs
+  | cons c t ih =>
+    intro st hs
+    simp only [List.foldl_cons]
+    apply ih (fun x hx => h x (by simp [hx]))
+    simp only [alphaStep, hs, Bool.true_and]
+    exact aa_could c (h c (by simp))
+
+private theorem detect_known (rows : List XRow) (h : residuesOk rows = true) :
+    detectAlphabetBag (rows.map (·.2)) ≠ UNKNOWN := by
+  unfold detectAlphabetBag
+  simp only [residuesOk, Bool.or_eq_true, List.all_eq_true] at h
+  have key : ∀ st : Bool × Bool, (st.1 = true ∨ st.2 = true) → alphaOfFlags st ≠ UNKNOWN := by
+    intro st hst
+    unfold alphaOfFlags
+    cases hst with
+    | inl h1 => simp [h1]; split <;> simp [BOTH, AMINOACIDS, NUCLEOTIDS, UNKNOWN]
+    | inr h2 => simp [h2]; split <;> simp [BOTH, AMINOACIDS, NUCLEOTIDS, UNKNOWN]
+  apply key
+  cases h with
+  | inl hnt =>
+    right
+    have : ∀ (l : List XRow), (∀ r ∈ l, ∀ c ∈ r.2, (isNt c || isSpecial c) = true) → ∀ st : Bool × Bool, st.2 = true →
+        ((l.map (·.2)).foldl (fun st s => s.foldl (alphaStep Gen.alpha_bag_both Gen.alpha_bag_nt Gen.alpha_bag_aa) st) st).2 = true := by
+      intro l
+      induction l with
+      | nil => intro _ st hs; exact hs
+      | cons r t ih =>
+        intro hl st hs
+        simp only [List.map_cons, List.foldl_cons]
+        exact ih (fun x hx => hl x (by simp [hx])) _ (fold_nt r.2 (hl r (by simp)) st hs)
+    exact this rows (fun r hr c hc => by simpa using hnt r hr c hc) (true, true) rfl
+  | inr haa =>
+    left
+    have : ∀ (l : List XRow), (∀ r ∈ l, ∀ c ∈ r.2, (isAa c || isSpecial c) = true) → ∀ st : Bool × Bool, st.1 = true →
+        ((l.map (·.2)).foldl (fun st s => s.foldl (alphaStep Gen.alpha_bag_both Gen.alpha_bag_nt Gen.alpha_bag_aa) st) st).1 = true := by
+      intro l
+      induction l with
+      | nil => intro _ st hs; exact hs
+      | cons r t ih =>
+        intro hl st hs
+        simp only [List.map_cons, List.foldl_cons]
+        exact ih (fun x hx => hl x (by simp [hx])) _ (fold_aa r.2 (hl r (by simp)) st hs)
+    exact this rows (fun r hr c hc => by simpa using haa r hr c hc) (true, true) rfl
+
+/-- what `reprNexus` gives row by row -/
+private theorem nx_repr_rows (f : Nexus.Facts) (rows : List XRow) (h : reprNexus rows = true)
+    (hk : f.keywordRowsAreResidues = true ∨ ∀ r ∈ rows, ¬ (upperName r.2 ∈ nexusKeywords)) :
+    rows ≠ [] ∧ (∀ r ∈ rows, RowOk f r) ∧ residuesOk rows = true ∧
+    (∃ L, 1 ≤ L ∧ ∀ r ∈ rows, r.2.length = L) ∧ distinct (rows.map (·.1)) = true ∧
+    (∀ r ∈ rows, ∀ c ∈ r.2, c ≠ POINT) := by
+  simp only [reprNexus, reprBase, Bool.and_eq_true] at h
+  obtain ⟨⟨⟨⟨hrect, hres⟩, hdist⟩, hnames⟩, hnx⟩ := h
+  cases rows with
+  | nil => simp [rectangular] at hrect
+  | cons r0 rs =>
+    simp only [rectangular, Bool.and_eq_true, decide_eq_true_eq, List.all_eq_true, beq_iff_eq] at hrect
+    have hlen : ∀ r ∈ r0 :: rs, r.2.length = r0.2.length := by
+      intro r hr
+      cases hr with
+      | head => rfl
+      | tail _ hr => exact hrect.2 r hr
+    have hresr : ∀ r ∈ r0 :: rs, ∀ b ∈ r.2, _ := fun r hr b hb => nx_residue_byte b (by
+      simp only [residuesOk, Bool.or_eq_true, List.all_eq_true] at hres
+      cases hres with
+      | inl h1 => left; simpa using h1 r hr b hb
+      | inr h1 => right; simpa using h1 r hr b hb)
+    refine ⟨by simp, ?_, hres, ⟨r0.2.length, hrect.1, hlen⟩, hdist, fun r hr c hc => (hresr r hr c hc).2.1⟩
+    intro r hr
+    have hn := (List.all_eq_true.mp hnames) r hr
+    simp only [Bool.and_eq_true, Bool.not_eq_true', List.all_eq_true] at hn
+    have hs := (List.all_eq_true.mp hnx) r hr
+    simp only [Bool.and_eq_true, List.all_eq_true, bne_iff_ne, ne_eq, Bool.not_eq_true'] at hs
+    obtain ⟨hdel, hkw⟩ := hs
+    have hne : r.1 ≠ [] := by
+      intro e; rw [e] at hn; simp at hn
+    have hq : r.2 ≠ [] := by
+      intro e
+      have := hlen r hr
+      rw [e] at this
+      simp at this
+      omega
+    have hnameRun : Run r.1 := by
+      refine ⟨hne, ?_⟩
+      intro b hb
+      have hd := hdel b hb
+      exact nx_name_byte b (hn.2 b hb) hd.1.1.1 hd.1.1.2 hd.1.2 hd.2
+    have hseqRun : Run r.2 := ⟨hq, fun b hb => (hresr r hr b hb).1⟩
+    refine ⟨hnameRun, ?_, hseqRun, ?_⟩
+    · -- the name: a number or, not being a reserved word, an identifier
+      unfold Nexus.classify
+      by_cases hi : (Phylip.parseInt64 r.1).isSome = true
+      · right; simp [hi]
+      · left
+        have hnot : ¬ r.1.map Nexus.upper ∈ Nexus.keywords.map (·.1) := by
+          rw [nx_keys, nx_upper]
+          intro hm
+          have : nexusKeywords.contains (upperName r.1) = true := by
+            simp only [List.contains_iff_mem]; exact hm
+          rw [this] at hkw
+          exact absurd hkw (by simp)
+        simp [hi, lookup_none_of_not_mem _ _ hnot]
+    · -- the residues: not a number; an identifier, or a reserved word that the repaired row loop accepts
+      unfold SeqTok Nexus.classify
+      have hi : Phylip.parseInt64 r.2 = none :=
+        parseInt64_none r.2 hq (fun b hb => ⟨(hresr r hr b hb).2.2.2, (hresr r hr b hb).2.2.1⟩)
+      simp only [hi, Option.isSome_none, Bool.false_eq_true, if_false]
+      cases hl : lookup (r.2.map Nexus.upper) Nexus.keywords with
+      | none => left; rfl
+      | some k =>
+        cases hk with
+        | inl hf => right; exact ⟨hf, nx_iskw _ (lookup_eq_some_mem hl)⟩
+        | inr hno =>
+          exfalso
+          apply hno r hr
+          have := lookup_eq_some_mem hl
+          have hm : r.2.map Nexus.upper ∈ Nexus.keywords.map (·.1) := List.mem_map.mpr ⟨_, this, rfl⟩
+          rw [nx_keys, nx_upper] at hm
+          exact hm
+
+/-- the writer's output in the cons / append form used by the stepping lemmas -/
+private theorem nx_write_eq (alphabet : Nat) (rows : List XRow) (L : Nat) (hne : rows ≠ [])
+    (hlen : ∀ r ∈ rows, r.2.length = L) :
+    Nexus.write alphabet rows =
+      fileText rows.length L (if alphabet == AMINOACIDS then txtProtein else txtDna) rows := by
+  cases rows with
+  | nil => exact absurd rfl hne
+  | cons r rs =>
+    have hL : r.2.length = L := hlen r (by simp)
+    have hint : ∀ n : Nat, intDec (n : Int) = natDec n := by
+      intro n; simp [intDec]
+    unfold Nexus.write fileText blockText
+    simp only [hint, hL]
+    have hfm : ((r :: rs).flatMap fun r => r.1 ++ [SP] ++ r.2 ++ [NL]) = (r :: rs).flatMap rowLine := rfl
+    rw [hfm]
+    split <;> simp [kwNexus, kwBegin, kwData, kwDimensions, kwNtax, kwNchar, kwFormat, kwDatatype, kwMatrix, kwEnd,
+      txtProtein, txtDna, NL, SP, List.append_assoc]
+
+/-- **Nexus round trip** (all four repair facts arbitrary, except that rows spelling a reserved word need the
+keyword-row repair of commit 2d2dfb5): for every representable alignment whose counts fit Go's `int`, every
+duplicate-name policy and auto-detected alphabet, parsing the writer's output gives back the same names in
+the same order, the same residues, the same length and the detected alphabet (which the writer passes
+through `datatype=dna|protein`). -/
+theorem roundtrip_nexus (f : Nexus.Facts) (o : POpts) (ho : normAlphabet o.alphabet = 2) (rows : List XRow)
+    (h : reprNexus rows = true)
+    (hk : f.keywordRowsAreResidues = true ∨ ∀ r ∈ rows, ¬ (upperName r.2 ∈ nexusKeywords))
+    (hsize : rows.length ≤ 9223372036854775807 ∧ ∀ r ∈ rows, r.2.length ≤ 9223372036854775807) :
+    ∃ L : Nat, 1 ≤ L ∧ (∀ r ∈ rows, r.2.length = L) ∧
+      Nexus.parse f o (Nexus.write (autoAlphabet (rows.map (·.2))) rows) =
+        .ok ⟨autoAlphabet (rows.map (·.2)), L, rows⟩ := by
+  obtain ⟨hne, hok, hres, ⟨L, hL1, hlen⟩, hdist, hdot⟩ := nx_repr_rows f rows h hk
+  refine ⟨L, hL1, hlen, ?_⟩
+  have hLmax : L ≤ 9223372036854775807 := by
+    cases rows with
+    | nil => exact absurd rfl hne
+    | cons r rs => rw [← hlen r (by simp)]; exact hsize.2 r (by simp)
+  rw [nx_write_eq _ rows L hne hlen]
+  have hknown := detect_known rows hres
+  -- the alphabet the writer announces is the one the parser sets
+  by_cases haa : (autoAlphabet (rows.map (·.2)) == AMINOACIDS) = true
+  · simp only [haa, if_true]
+    apply parse_written f o ho rows.length L rfl hsize.1 hLmax hL1 txtProtein ⟨by decide, by decide⟩ (by decide)
+      hne hok hlen hdist hdot AMINOACIDS (by decide)
+    have e : autoAlphabet (rows.map (·.2)) = AMINOACIDS := by simpa using haa
+    rw [e]
+    unfold autoAlphabet at e
+    simp only at e
+    have hd : detectAlphabetBag (rows.map (·.2)) = AMINOACIDS := by
+      revert e
+      generalize detectAlphabetBag (rows.map (·.2)) = d
+      intro e
+      split at e
+      · simp [NUCLEOTIDS, AMINOACIDS] at e
+      · split at e
+        · rename_i h2; simpa using h2
+        · simp [UNKNOWN, AMINOACIDS] at e
+    simp [Bag.finish, Bag.detect, hd, BOTH, AMINOACIDS, NUCLEOTIDS, UNKNOWN]
+  · simp only [haa, Bool.false_eq_true, if_false]
+    apply parse_written f o ho rows.length L rfl hsize.1 hLmax hL1 txtDna ⟨by decide, by decide⟩ (by decide)
+      hne hok hlen hdist hdot NUCLEOTIDS (by decide)
+    -- the detection is nucleotide-compatible
+    have hcases : detectAlphabetBag (rows.map (·.2)) = BOTH ∨ detectAlphabetBag (rows.map (·.2)) = NUCLEOTIDS := by
+      have hne' : autoAlphabet (rows.map (·.2)) ≠ AMINOACIDS := by simpa using haa
+      unfold autoAlphabet at hne'
+      simp only at hne'
+      revert hne' hknown
+      unfold detectAlphabetBag alphaOfFlags
+      generalize (List.foldl _ (true, true) (rows.map (·.2))) = st
+      intro hne' hknown
+      repeat' split at hknown
+      all_goals simp_all [BOTH, AMINOACIDS, NUCLEOTIDS, UNKNOWN]
+    have hauto : autoAlphabet (rows.map (·.2)) = NUCLEOTIDS := by
+      unfold autoAlphabet
+      cases hcases with
+      | inl e => simp [e]
+      | inr e => simp [e]
+    rw [hauto]
+    cases hcases with
+    | inl e => simp [Bag.finish, Bag.detect, e, BOTH, AMINOACIDS, NUCLEOTIDS, UNKNOWN]
+    | inr e => simp [Bag.finish, Bag.detect, e, BOTH, AMINOACIDS, NUCLEOTIDS, UNKNOWN]
+
+end NexusRT
 
 end Gv.Props.C02
